@@ -70,6 +70,7 @@ type BObs struct {
 	Reuse   string  `json:"reuse"`
 	Panic   bool    `json:"panic"`
 	Hung    bool    `json:"hung"`
+	Note    string  `json:"note,omitempty"` // evidence only: the text of an error outside the scheduler's set that a call returned
 	Count   int     `json:"count"`
 }
 
@@ -221,6 +222,9 @@ func burstBody(b Burst, st *bshared) {
 		if c := codeOf(err); c != "Foreign" {
 			return c
 		}
+		st.mu.Lock()
+		st.obs.Note = "a call returned an error outside the scheduler's set: " + err.Error()
+		st.mu.Unlock()
 		return "Hung"
 	}
 	do := func(jctx context.Context, op string, id int) string {
@@ -483,6 +487,7 @@ func runBurstOnce(t *testing.T, b Burst) BObs {
 		o := emptyBObs(b)
 		o.Hung = true
 		o.Panic = st.obs.Panic
+		o.Note = st.obs.Note
 		return o
 	}
 	o := st.obs
@@ -495,7 +500,7 @@ func runBurstOnce(t *testing.T, b Burst) BObs {
 	}
 	if o.Hung {
 		h := emptyBObs(b)
-		h.Hung, h.Panic = true, o.Panic
+		h.Hung, h.Panic, h.Note = true, o.Panic, o.Note
 		return h
 	}
 	// lanes with the same operations are interchangeable: sort their observations
